@@ -11,6 +11,7 @@ mod history_props;
 mod rng;
 mod sample_props;
 mod space;
+mod stream_props;
 mod tt;
 
 use common::Args;
@@ -43,6 +44,7 @@ fn main() {
         "C18" => sample_props::c18(&a),
         "C08" => atomic_props::c08(&a),
         "C10" => persist_props::c10(&a),
+        "C13" => stream_props::c13(&a),
         "C14" => conc_props::c14(&a),
         "C15" => conc_props::c15(&a),
         "C17" => conc_props::c17(&a),
